@@ -7,7 +7,9 @@ import Mav.Gen.Consts
 
   Modelled after the fixes recorded in known_findings.txt:
     * pushEvent tests `terminate` first (pSkip), then selects between delivering (pDeliver) and `terminate` (pDrop);
-    * runWriter survives a failed write (wFail returns to `idle`).
+    * runWriter survives a failed write (wFail returns to `idle`);
+    * Channel.run, when its context is cancelled, closes the transport BEFORE waiting for the writer
+      (cCtxDone → bCloseRwc → bTermW → bRecvW → bRecvR), so that a write blocked in the transport cannot hang Close.
 
   The steps rReadOk / cARecvW / cBRecvR carry the premise `push = idle` (the goroutine is not inside pushEvent) and
   newChanTerm carries premises saying that the channel is fresh; they are redundant (theorems `premises_redundant` in
@@ -168,7 +170,7 @@ inductive Step : St → St → Prop
   | cReaderDone (s c e) : (s.chans c).cp = .wait → (s.chans c).rp = .sendDone e →
       Step s (upd s c (fun x => { x with cp := .aCloseRwc e, rp := .exited }))
   | cCtxDone (s c) : (s.chans c).cp = .wait → (s.chans c).ctxDone = true →
-      Step s (upd s c (fun x => { x with cp := .bTermW }))
+      Step s (upd s c (fun x => { x with cp := .bCloseRwc }))
   | cACloseRwc (s c e) : (s.chans c).cp = .aCloseRwc e →
       Step s (upd s c (fun x => { x with cp := .aTermW e, rwcClosed := true }))
   | cATermW (s c e) : (s.chans c).cp = .aTermW e →
@@ -179,9 +181,9 @@ inductive Step : St → St → Prop
   | cBTermW (s c) : (s.chans c).cp = .bTermW →
       Step s (upd s c (fun x => { x with cp := .bRecvW, writerTerm := true }))
   | cBRecvW (s c) : (s.chans c).cp = .bRecvW → (s.chans c).wp = .sendDone →
-      Step s (upd s c (fun x => { x with cp := .bCloseRwc, wp := .exited }))
+      Step s (upd s c (fun x => { x with cp := .bRecvR, wp := .exited }))
   | cBCloseRwc (s c) : (s.chans c).cp = .bCloseRwc →
-      Step s (upd s c (fun x => { x with cp := .bRecvR, rwcClosed := true }))
+      Step s (upd s c (fun x => { x with cp := .bTermW, rwcClosed := true }))
   | cBRecvR (s c e) : (s.chans c).cp = .bRecvR → (s.chans c).rp = .sendDone e → (s.chans c).push = .idle →
       Step s (upd s c (fun x => { x with cp := .closeWait, push := .begin (.close none), rp := .exited,
                                          want := x.want ++ [.close none], closeEv := [.close none] }))
